@@ -20,12 +20,32 @@ type Writer struct {
 	N  int
 }
 
+var (
+	allMu sync.Mutex
+	all   []*Writer
+)
+
 func Create(path string) *Writer {
 	f, err := os.Create(path)
 	if err != nil {
 		panic(err)
 	}
-	return &Writer{f: f, w: bufio.NewWriterSize(f, 1<<20)}
+	w := &Writer{f: f, w: bufio.NewWriterSize(f, 1<<20)}
+	allMu.Lock()
+	all = append(all, w)
+	allMu.Unlock()
+	return w
+}
+
+// FlushAll writes out what every open writer holds (used when a driver dies: what was observed so far is still judged).
+func FlushAll() {
+	allMu.Lock()
+	defer allMu.Unlock()
+	for _, w := range all {
+		w.mu.Lock()
+		w.w.Flush()
+		w.mu.Unlock()
+	}
 }
 
 func (w *Writer) Emit(m M) int {
